@@ -39,7 +39,7 @@ class HarnessError(Exception):
 
 class Res:
     """Outcome of one oracle evaluation."""
-    __slots__ = ('failures', 'nontrivial', 'classes', 'counters', 'skipped')
+    __slots__ = ('failures', 'nontrivial', 'classes', 'counters', 'skipped', 'repros', 'nt_count')
 
     def __init__(self):
         self.failures = []      # [(bucket, message)]
@@ -47,9 +47,15 @@ class Res:
         self.classes = []       # labels for the histogram
         self.counters = {}      # name -> int (summed into evidence)
         self.skipped = None     # finding id when the case was not executed (memory-unsafe known region)
+        self.repros = {}        # bucket -> (leg, case) stand-alone reproducer
+        self.nt_count = None    # for campaign legs: number of distinct non-trivial sub-cases they executed
 
-    def fail(self, bucket, msg):
+    def fail(self, bucket, msg, repro=None):
+        """repro: optional (leg name, case) that reproduces this failure on its own (used by legs whose cases are
+        whole campaigns, e.g. native sweeps: the replay file then holds the single failing input)."""
         self.failures.append((str(bucket), str(msg)[:600]))
+        if repro is not None:
+            self.repros[str(bucket)] = repro
 
     def count(self, name, n=1):
         self.counters[name] = self.counters.get(name, 0) + n
@@ -223,22 +229,26 @@ def _collect_leg(leg, n, seed, known, inflight, out, shard=(0, 1)):
                     st_out['samples'].append(case)
         newb = []
         for bucket, msg in res.failures:
-            fid = known.match(leg.name, case, bucket)
+            rleg, rcase = res.repros.get(bucket, (leg.name, case))
+            fid = known.match(rleg, rcase, bucket)
             if fid:
                 st_out['excluded'][fid] = st_out['excluded'].get(fid, 0) + 1
                 if fid not in st_out['excluded_samples']:
-                    st_out['excluded_samples'][fid] = {'case': case, 'bucket': bucket, 'msg': msg}
+                    st_out['excluded_samples'][fid] = {'case': rcase, 'bucket': bucket, 'msg': msg}
             else:
-                newb.append((bucket, msg))
+                newb.append((bucket, msg, rleg, rcase))
         return newb
 
     def note_new(case, res):
-        for bucket, msg in record(case, res):
-            ent = st_out['new'].setdefault(bucket, {'count': 0, 'case': case, 'msg': msg})
+        for bucket, msg, rleg, rcase in record(case, res):
+            ent = st_out['new'].setdefault(bucket, {'count': 0, 'case': rcase, 'msg': msg, 'leg': rleg})
             ent['count'] += 1
-            if len(canon(case)) < len(canon(ent['case'])):
-                ent['case'] = case
+            if len(canon(rcase)) < len(canon(ent['case'])):
+                ent['case'] = rcase
                 ent['msg'] = msg
+                ent['leg'] = rleg
+        if res.nt_count is not None:
+            st_out['nt_extra'] = st_out.get('nt_extra', 0) + res.nt_count
 
     if leg.cases is not None:
         widx, nworkers = shard
@@ -260,6 +270,8 @@ def _collect_leg(leg, n, seed, known, inflight, out, shard=(0, 1)):
 
     # shrink every new bucket (Hypothesis stops at the first failure, hence one run per bucket)
     for bucket in sorted(st_out['new'], key=lambda b: -st_out['new'][b]['count'])[:leg.max_shrink_buckets]:
+        if st_out['new'][bucket].get('leg', leg.name) != leg.name:
+            continue
         last = {}
 
         @hseed(seed)
@@ -503,6 +515,7 @@ def main(mod, tier, replay=None):
                 m['evaluations'] += o['evaluations']
                 if 'enumerated' in o:
                     m['enumerated'] = o['enumerated']
+                m['nt_extra'] = m.get('nt_extra', 0) + o.get('nt_extra', 0)
                 m['nt_hashes'] |= o['nt_hashes']
                 for key in ('classes', 'counters', 'excluded', 'skipped'):
                     for k, v in o[key].items():
@@ -524,7 +537,7 @@ def main(mod, tier, replay=None):
 
         for lname, m in merged.items():
             for b, ent in sorted(m['new'].items()):
-                pth = _write_replay(prop, lname, ent['case'], b, ent['msg'])
+                pth = _write_replay(prop, ent.get('leg', lname), ent['case'], b, ent['msg'])
                 print('  new failure bucket leg=%s bucket=%s count=%d: %s' % (lname, b, ent['count'], ent['msg']))
                 violations.append(pth)
 
